@@ -128,6 +128,53 @@ Theorem C18_last_definition_wins : forall (l1 l2 : list twallcons) x,
   last_by twc_name (twc_name x) (l1 ++ x :: l2) = Some x.
 Proof. exact (@last_definition_wins twallcons twc_name). Qed.
 
+(* schedules, gaps and thermal bridges: the typed element carries the written values *)
+Theorem C18_day_schedule_recovered : forall b kt k lead trail g1 g2 ts,
+  get_text "TYPE" (b_attrs b) = Some kt -> skind_of kt = Some k ->
+  forallb (N.eqb 32) lead = true -> forallb (N.eqb 32) trail = true -> all_wsb g1 = true -> all_wsb g2 = true ->
+  forallb num_item_ok ts = true -> (List.length ts = 24%nat \/ List.length ts = 1%nat) ->
+  get_text "VALUES" (b_attrs b) = Some (list_text lead trail g1 g2 ts) ->
+  day_of b = Ok (TDay (squeeze2 (b_name b)) k ts).
+Proof. exact day_schedule_recovered. Qed.
+Theorem C18_week_schedule_recovered : forall b kt k lead trail g1 g2 ns,
+  get_text "TYPE" (b_attrs b) = Some kt -> skind_of kt = Some k ->
+  forallb (N.eqb 32) lead = true -> forallb (N.eqb 32) trail = true -> all_wsb g1 = true -> all_wsb g2 = true ->
+  forallb name_item_ok ns = true -> (List.length ns = 7%nat \/ List.length ns = 1%nat) ->
+  get_text "DAY-SCHEDULES" (b_attrs b) = Some (list_text lead trail g1 g2 (map quoted ns)) ->
+  week_of b = Ok (TWeek (squeeze2 (b_name b)) k ns).
+Proof. exact week_schedule_recovered. Qed.
+Theorem C18_week_schedule_length : forall b kt k lead trail g1 g2 ns,
+  get_text "TYPE" (b_attrs b) = Some kt -> skind_of kt = Some k ->
+  forallb (N.eqb 32) lead = true -> forallb (N.eqb 32) trail = true -> all_wsb g1 = true -> all_wsb g2 = true ->
+  forallb name_item_ok ns = true -> List.length ns <> 7%nat -> List.length ns <> 1%nat ->
+  get_text "DAY-SCHEDULES" (b_attrs b) = Some (list_text lead trail g1 g2 (map quoted ns)) ->
+  week_of b = Err 10.
+Proof. exact week_schedule_length. Qed.
+Theorem C18_gap_recovered : forall b g gg f fg p i,
+  get_text "GLASS-TYPE" (b_attrs b) = Some g -> get_text "GROUP-GLASS" (b_attrs b) = Some gg ->
+  get_text "NAME-FRAME" (b_attrs b) = Some f -> get_text "GROUP-FRAME" (b_attrs b) = Some fg ->
+  get_num "PORCENTAGE" (b_attrs b) = Some p -> get_num "INF-COEF" (b_attrs b) = Some i ->
+  exists w, wincons_of b = Ok w /\ twn_name w = b_name b /\ twn_glass w = g /\ twn_glassgroup w = gg /\ twn_frame w = f /\
+            twn_framegroup w = fg /\ twn_percentage w = p /\ twn_infcoeff w = i /\
+            twn_group w = match get_text "GROUP" (b_attrs b) with Some x => x | None => s2l "Ventanas" end /\
+            twn_deltau w = num_or (get_num "porcentajeIncrementoU" (b_attrs b)) 0 /\
+            twn_gglshwi w = get_num "TransmisividadJulio" (b_attrs b).
+Proof. exact gap_recovered. Qed.
+Theorem C18_bridge_user_defined : forall b psi frsi,
+  str_eqb (b_name b) (s2l "LONGITUDES_CALCULADAS") = false ->
+  get_num "TTL" (b_attrs b) = Some psi -> get_num "FRSI" (b_attrs b) = Some frsi ->
+  (get_num "DEFINICION" (b_attrs b) = None \/ exists d, get_num "DEFINICION" (b_attrs b) = Some d /\ trunc_tok d = 2%Z) ->
+  forall ty mn mx pa, get_text "TYPE" (b_attrs b) = Some ty ->
+  str_eqb ty (s2l "WINDOW-FRAME") = false -> str_eqb ty (s2l "PILLAR") = false -> is_empty ty = false ->
+  get_num "ANGLE-MIN" (b_attrs b) = Some mn -> get_num "ANGLE-MAX" (b_attrs b) = Some mx -> get_text "PARTITION" (b_attrs b) = Some pa ->
+  tb_of b = Ok (mkTBr (b_name b) (get_num "LONG-TOTAL" (b_attrs b)) ty (NTok psi) (NTok frsi) (Some (mn, mx, pa)) None).
+Proof. exact bridge_user_defined. Qed.
+Theorem C18_bridge_lengths_block : forall b,
+  str_eqb (b_name b) (s2l "LONGITUDES_CALCULADAS") = true -> get_text "TYPE" (b_attrs b) = None ->
+  get_num "DEFINICION" (b_attrs b) = None ->
+  tb_of b = Ok (mkTBr (b_name b) (get_num "LONG-TOTAL" (b_attrs b)) [] (NConst 0) (NConst 0) None None).
+Proof. exact bridge_lengths_block. Qed.
+
 (* NewBDL_O.tbl: an element / a space written as a name line and a values line (any blanks in front of the
    values) is read back value by value *)
 Theorem C18_tbl_element_roundtrip : forall e s1 s2 pre, wf_telem e s1 s2 = true -> all_wsb pre = true ->
